@@ -255,5 +255,10 @@ func (*treePipeline) handlePipelineErr(ctx context.Context, echs ...<-chan error
 			return nil
 		})
 	}
-	return eg.Wait()
+	if err := eg.Wait(); err != nil {
+		return err
+	}
+	// all stages have ended. if they ended because ctx was cancelled, each collector above may still have
+	// picked its (already closed) error channel instead of ectx.Done(): report the cancellation.
+	return ctx.Err()
 }
